@@ -912,6 +912,206 @@ Proof.
 Qed.
 
 (* ==================================================================================== *)
+(** * sort_values_by: the same, whatever the comparator (only "a permutation" is used) *)
+
+Lemma kv_ins_by_perm le x m : Permutation (kv_ins_by le x m) (x :: m).
+Proof.
+  induction m as [|y m IH]; simpl; [reflexivity|].
+  destruct (le x y); [reflexivity|]. rewrite IH. apply perm_swap.
+Qed.
+Lemma kv_sort_by_perm le m : Permutation (kv_sort_by le m) m.
+Proof. induction m as [|x m IH]; simpl; [reflexivity|]. rewrite kv_ins_by_perm. constructor. exact IH. Qed.
+
+Section SortBy.
+Variable cm : scmp.
+
+Definition sort_by_child_t (kv : key * item) : key * item :=
+  match kv with
+  | (k, i) => (k, match i with
+                  | ITable (Tbl _ _ _ true _ _ as sub) => ITable (tbl_sort_by cm sub)
+                  | _ => i
+                  end)
+  end.
+Lemma tbl_sort_by_eq items d im dt p sp :
+  tbl_sort_by cm (Tbl items d im dt p sp) = Tbl (kv_sort_by (tcmp_le cm) (map sort_by_child_t items)) d im dt p sp.
+Proof. reflexivity. Qed.
+
+Lemma kkeys_map_sort_by_child m : kkeys (map sort_by_child_t m) = kkeys m.
+Proof. unfold kkeys. rewrite map_map. apply map_ext. intros [k i]. reflexivity. Qed.
+
+(* sorting keeps a table well-formed in any slot and exactly as visible *)
+Lemma sort_by_tbl_wf : forall t,
+  (forall b, tbl_wf b t -> tbl_wf b (tbl_sort_by cm t))
+  /\ has_line (tbl_sort_by cm t) = has_line t
+  /\ prints_header (tbl_sort_by cm t) = prints_header t
+  /\ t_dotted (tbl_sort_by cm t) = t_dotted t /\ t_implicit (tbl_sort_by cm t) = t_implicit t.
+Proof.
+  pose (Pt := fun t => (forall b, tbl_wf b t -> tbl_wf b (tbl_sort_by cm t))
+                       /\ has_line (tbl_sort_by cm t) = has_line t
+                       /\ prints_header (tbl_sort_by cm t) = prints_header t
+                       /\ t_dotted (tbl_sort_by cm t) = t_dotted t /\ t_implicit (tbl_sort_by cm t) = t_implicit t).
+  pose (Pi := fun i => match i with ITable t => Pt t | _ => True end).
+  pose (Pv := fun _ : value => True).
+  apply (tbl_ind4 Pv Pi Pt); unfold Pv, Pi; try (intros; exact I); try (intros; assumption).
+  intros items d im dt p sp IH. rewrite Forall_forall in IH.
+  assert (Hgl : forall kv, In kv items -> gl (sort_by_child_t kv) = gl kv).
+  { intros [k i] Hin. specialize (IH _ Hin). simpl in IH. unfold gl. simpl.
+    destruct i as [|v|[m0 d0 im0 dt0 p0 sp0]|]; try reflexivity. destruct dt0; [|reflexivity].
+    destruct IH as (_ & Hl & _ & Hd & _). unfold hl. rewrite Hl, Hd. reflexivity. }
+  assert (Hgp : forall kv, In kv items -> gp (sort_by_child_t kv) = gp kv).
+  { intros [k i] Hin. specialize (IH _ Hin). simpl in IH. unfold gp. simpl.
+    destruct i as [|v|[m0 d0 im0 dt0 p0 sp0]|]; try reflexivity. destruct dt0; [|reflexivity].
+    destruct IH as (_ & Hl & Hp & Hd & Hi). unfold ph, shown. rewrite Hl, Hp, Hd, Hi. reflexivity. }
+  assert (Hex : forall g, (forall kv, In kv items -> g (sort_by_child_t kv) = g kv) ->
+                          existsb g (kv_sort_by (tcmp_le cm) (map sort_by_child_t items)) = existsb g items).
+  { intros g Hg. rewrite (existsb_perm g _ _ (kv_sort_by_perm _ _)).
+    clear -Hg. induction items as [|x l IHl]; simpl; [reflexivity|].
+    rewrite Hg by (left; reflexivity). rewrite IHl; [reflexivity|]. intros. apply Hg. right. assumption. }
+  unfold Pt. rewrite tbl_sort_by_eq. split; [|split; [|split; [|split; reflexivity]]].
+  - intros b Hw. apply tbl_wf_eq in Hw as (Hd & Hn & Ha). apply tbl_wf_eq. split; [exact Hd|]. split.
+    + apply (NoDup_kkeys_perm _ _ (kv_sort_by_perm _ _)). rewrite kkeys_map_sort_by_child. exact Hn.
+    + apply (all_P_perm _ _ _ (kv_sort_by_perm _ _)). apply all_P_map. apply all_P_forall. intros [k i] Hin.
+      destruct (all_P_In _ _ _ Ha Hin) as [Hk Hi]. split; [exact Hk|]. simpl.
+      destruct i as [|v|[m0 d0 im0 dt0 p0 sp0]|]; try exact Hi. destruct dt0; [|exact Hi].
+      pose proof (IH _ Hin) as IHk. cbn [snd] in IHk. destruct IHk as (Hwf & Hl & _ & Hdd & _).
+      destruct Hi as [Hs Hv]. split; [apply Hwf; exact Hs|].
+      unfold vis_cond in *. rewrite Hdd, Hl. exact Hv.
+  - rewrite !has_line_eq. apply Hex. exact Hgl.
+  - rewrite !prints_header_eq. apply Hex. exact Hgp.
+Qed.
+
+Definition sort_by_child_v (kv : key * item) : key * item :=
+  match kv with
+  | (k, i) => (k, match i with
+                  | IValue (VInline _ _ _ true _ _ as sub) => IValue (inline_sort_by cm sub)
+                  | _ => i
+                  end)
+  end.
+Lemma kkeys_map_sort_by_child_v m : kkeys (map sort_by_child_v m) = kkeys m.
+Proof. unfold kkeys. rewrite map_map. apply map_ext. intros [k i]. reflexivity. Qed.
+
+(* sorting keeps an inline table well-formed in any slot *)
+Lemma sort_by_inline_wf : forall v,
+  (forall c, value_wf c v -> value_wf c (inline_sort_by cm v))
+  /\ (forall line, pair_wf line (IValue v) -> pair_wf line (IValue (inline_sort_by cm v))).
+Proof.
+  pose (Pv := fun v => (forall c, value_wf c v -> value_wf c (inline_sort_by cm v))
+                       /\ (forall line, pair_wf line (IValue v) -> pair_wf line (IValue (inline_sort_by cm v)))).
+  pose (Pi := fun i => match i with IValue v => Pv v | _ => True end).
+  pose (Pt := fun _ : tbl => True).
+  apply (value_ind4 Pv Pi Pt); unfold Pt, Pi; try (intros; exact I); try (intros; assumption).
+  - intros s r d. split; intros; assumption.
+  - intros vals tr c d sp _. split; intros; assumption.
+  - intros items pre im dt d sp IH. rewrite Forall_forall in IH.
+    assert (Hall : forall L, all_P (fun kv => key_wf L (fst kv) /\ pair_wf L (snd kv)) items ->
+                             all_P (fun kv => key_wf L (fst kv) /\ pair_wf L (snd kv))
+                                   (kv_sort_by (icmp_le cm) (map sort_by_child_v items))).
+    { intros L Ha. apply (all_P_perm _ _ _ (kv_sort_by_perm _ _)). apply all_P_map. apply all_P_forall.
+      intros [k i] Hin. destruct (all_P_In _ _ _ Ha Hin) as [Hk Hi]. split; [exact Hk|]. simpl.
+      destruct i as [|[s0 r0 d0|vals0 tr0 c0 d0 sp0|items0 pre0 im0 dt0 d0 sp0]| |]; try exact Hi.
+      destruct dt0; [|exact Hi]. exact (proj2 (IH _ Hin) L Hi). }
+    assert (Hnd : NoDup (kkeys items) -> NoDup (kkeys (kv_sort_by (icmp_le cm) (map sort_by_child_v items)))).
+    { intro Hn. apply (NoDup_kkeys_perm _ _ (kv_sort_by_perm _ _)). rewrite kkeys_map_sort_by_child_v. exact Hn. }
+    assert (Hne : items <> [] -> kv_sort_by (icmp_le cm) (map sort_by_child_v items) <> []).
+    { intro Hn. apply (perm_nonnil _ _ (kv_sort_by_perm _ _)). destruct items; [contradiction|discriminate]. }
+    assert (Hv : forall c, value_wf c (VInline items pre im dt d sp) ->
+                           value_wf c (VInline (kv_sort_by (icmp_le cm) (map sort_by_child_v items)) pre im dt d sp)).
+    { intros c (H1 & H2 & H3 & H4). split; [exact H1|]. split; [exact H2|]. split; [apply Hnd; exact H3|apply Hall; exact H4]. }
+    split; [exact Hv|].
+    intros line H. change (inline_sort_by cm (VInline items pre im dt d sp))
+                     with (VInline (kv_sort_by (icmp_le cm) (map sort_by_child_v items)) pre im dt d sp).
+    destruct dt.
+    + simpl in *. destruct H as (H1 & H2 & H3). split; [apply Hne; exact H1|]. split; [apply Hnd; exact H2|apply Hall; exact H3].
+    + exact (Hv _ H).
+Qed.
+
+Lemma op_sort_by_node : node_ok (op_sort_by cm).
+Proof.
+  intros c i i' H Hw.
+  destruct i as [|[sc r d|vals tr cm0 d sp|items pre im dt d sp]|t|ts sp]; unfold op_sort_by in H; try discriminate.
+  - destruct (inline_is_map (VInline items pre im dt d sp)); [|discriminate]. injection H as <-.
+    split; [|exact I]. set (v := VInline items pre im dt d sp) in *.
+    destruct (sort_by_inline_wf v) as [Hv Hp].
+    destruct c as [| | |l|]; [exfalso; exact Hw|exact (Hp true Hw)|exfalso; exact Hw|exact (Hp l Hw)|exact (Hv CArr Hw)].
+  - destruct (tbl_is_map t); [|discriminate]. injection H as <-.
+    destruct (sort_by_tbl_wf t) as (Hwf & Hl & Hp & Hd & Hi).
+    assert (Hr : Rt t (tbl_sort_by cm t)).
+    { unfold Rt, hl, ph, shown. rewrite Hl, Hp, Hd, Hi. repeat split; auto. }
+    split; [|exact Hr].
+    destruct c as [| | |l|]; cbn [iwf] in *; try contradiction.
+    + apply Hwf. exact Hw.
+    + destruct Hw as [Hw Hv]. split; [apply Hwf; exact Hw|exact (vis_cond_keep _ _ Hv Hr)].
+    + destruct Hw as [Hdt Hw]. split; [rewrite Hd; exact Hdt|apply Hwf; exact Hw].
+Qed.
+
+End SortBy.
+
+(* the representation invariant `tbl_is_map` / `inline_is_map` under which Model/Edit.v defines sort_values_by holds
+   for every well-formed node (Spec/WF.v asks for distinct keys everywhere): on well-formed trees sort_values_by is
+   defined exactly where sort_values is *)
+Lemma NoDup_keys_distinct l : NoDup l -> keys_distinct l = true.
+Proof.
+  induction 1 as [|k l Hn _ IH]; [reflexivity|]. cbn [keys_distinct]. rewrite IH, andb_true_r. apply negb_true_iff.
+  destruct (existsb (bytes_eqb k) l) eqn:E; [|reflexivity]. exfalso. apply Hn.
+  apply existsb_exists in E as (y & Hy & Ey). apply bytes_eqb_eq in Ey. subst y. exact Hy.
+Qed.
+
+Lemma wf_is_map :
+  (forall v, (forall c, value_wf c v -> inline_is_map v = true)
+             /\ (forall line, pair_wf line (IValue v) -> inline_is_map v = true))
+  /\ (forall t b, tbl_wf b t -> tbl_is_map t = true).
+Proof.
+  pose (Pv := fun v => (forall c, value_wf c v -> inline_is_map v = true)
+                       /\ (forall line, pair_wf line (IValue v) -> inline_is_map v = true)).
+  pose (Pt := fun t => forall b, tbl_wf b t -> tbl_is_map t = true).
+  pose (Pi := fun i => match i with IValue v => Pv v | ITable t => Pt t | _ => True end).
+  assert (Hinl : forall items pre im dt d sp,
+             Forall (fun kv => Pi (snd kv)) items -> Pv (VInline items pre im dt d sp)).
+  { intros items pre im dt d sp IH. rewrite Forall_forall in IH.
+    assert (G : forall L, NoDup (kkeys items) -> all_P (fun kv => key_wf L (fst kv) /\ pair_wf L (snd kv)) items ->
+                          inline_is_map (VInline items pre im dt d sp) = true).
+    { intros L Hn Ha. rewrite inline_is_map_eq. apply andb_true_iff. split; [exact (NoDup_keys_distinct _ Hn)|].
+      apply forallb_forall. intros [k i] Hin. cbn [snd].
+      destruct i as [|[s0 r0 d0|vals0 tr0 c0 d0 sp0|items0 pre0 im0 dt0 d0 sp0]| |]; try reflexivity.
+      destruct dt0; [|reflexivity]. destruct (all_P_In _ _ _ Ha Hin) as [_ Hp]. cbn [snd] in Hp.
+      exact (proj2 (IH _ Hin) L Hp). }
+    split.
+    - intros c (_ & _ & Hn & Ha). exact (G false Hn Ha).
+    - intros line H. destruct dt.
+      + simpl in H. destruct H as (_ & Hn & Ha). exact (G line Hn Ha).
+      + destruct H as (_ & _ & Hn & Ha). exact (G false Hn Ha). }
+  assert (Htb : forall items d im dt p sp,
+             Forall (fun kv => Pi (snd kv)) items -> Pt (Tbl items d im dt p sp)).
+  { intros items d im dt p sp IH b Hw. rewrite Forall_forall in IH. apply tbl_wf_eq in Hw as (_ & Hn & Ha).
+    rewrite tbl_is_map_eq. apply andb_true_iff. split; [exact (NoDup_keys_distinct _ Hn)|].
+    apply forallb_forall. intros [k i] Hin. cbn [snd].
+    destruct i as [|v|[m0 d0 im0 dt0 p0 sp0]|]; try reflexivity. destruct dt0; [|reflexivity].
+    destruct (all_P_In _ _ _ Ha Hin) as [_ Hi]. cbn [snd iwf] in Hi. exact (IH _ Hin false (proj1 Hi)). }
+  split.
+  - apply (value_ind4 Pv Pi Pt); unfold Pi; try (intros; exact I); try (intros; assumption); try exact Hinl; try exact Htb.
+    + intros s r d. split; reflexivity.
+    + intros vals tr c d sp _. split; reflexivity.
+  - apply (tbl_ind4 Pv Pi Pt); unfold Pi; try (intros; exact I); try (intros; assumption); try exact Hinl; try exact Htb.
+    + intros s r d. split; reflexivity.
+    + intros vals tr c d sp _. split; reflexivity.
+Qed.
+
+Lemma op_sort_by_defined cm c i : iwf c i -> (op_sort_by cm i = None <-> op_sort i = None).
+Proof.
+  intro Hw. destruct i as [|[sc r d|vals tr c0 d sp|items pre im dt d sp]|t|ts sp]; try (split; reflexivity).
+  - set (v := VInline items pre im dt d sp) in *. assert (E : inline_is_map v = true).
+    { destruct (proj1 wf_is_map v) as [Hv Hp].
+      destruct c as [| | |l|]; [exfalso; exact Hw|exact (Hp true Hw)|exfalso; exact Hw|exact (Hp l Hw)|exact (Hv CArr Hw)]. }
+    unfold op_sort_by, op_sort. fold v. rewrite E. split; discriminate.
+  - assert (E : tbl_is_map t = true).
+    { destruct c as [| | |l|]; cbn [iwf] in Hw; try contradiction.
+      - exact (proj2 wf_is_map t true Hw).
+      - exact (proj2 wf_is_map t false (proj1 Hw)).
+      - exact (proj2 wf_is_map t false (proj2 Hw)). }
+    unfold op_sort_by, op_sort. rewrite E. split; discriminate.
+Qed.
+
+(* ==================================================================================== *)
 (** * IndexMut: doc[k1]...[kn] = x *)
 
 Definition is_value_pay (x : ipay) : bool := match x with IPValue _ => true | IPTable => false end.
